@@ -36,3 +36,22 @@ Theorem C19_refuted_pinned :
   fs_get (apply_ops [] (firstn 1 (set_ops false [107] [97;98]))) [107] = Some [].
 Proof. exact pinned_crash_empty. Qed.
 Print Assumptions C19_refuted_pinned.
+
+(** Every kind of write — Sets (also under names so long that the temp file cannot be created:
+    such a Set fails before anything is written) and Deletes (one unlink) — in any sequence, killed
+    at any point: every file that is not a temp file holds what it held, or what one of the Sets
+    gives it in full, or is gone because one of the Deletes names it. *)
+Theorem C19_writes_and_deletes : forall ws d i m, is_tmp m = false ->
+  let d' := apply_ops d (firstn i (writes_ops ws)) in
+  fs_get d' m = fs_get d m \/
+  exists o, In o ws /\
+    match o with
+    | WSet k v => sanitize k = m /\ fs_get d' m = Some v
+    | WDelete k => sanitize k = m /\ fs_get d' m = None
+    end.
+Proof. exact writes_crash. Qed.
+Print Assumptions C19_writes_and_deletes.
+
+Theorem C19_name_too_long_writes_nothing : forall n v d i,
+  fits n = false -> apply_ops d (firstn i (set_ops_os n v)) = d.
+Proof. exact too_long_writes_nothing. Qed.
